@@ -134,9 +134,17 @@ def run_property(prop, tier='quick', facts_dir=None, quiet=False, write=True):
             info['unavailable_bodies'] = prog.unavailable
         mod = importlib.import_module('ripcheck.rules.%s' % prop.lower())
         ctx = Ctx(prog, prop, tier)
-        mod.run(ctx)
+        partial_error = None
+        try:
+            mod.run(ctx)
+        except CheckError as e:
+            # a rule failed closed: keep the verdicts of the rules that ran before it (a violation
+            # they found is still a violation), report the error, and never claim "held"
+            partial_error = str(e)
+            if not [o for o in ctx.obs if not o.ok]:
+                raise
         extra_thorough = None
-        if tier == 'thorough':
+        if tier == 'thorough' and partial_error is None:
             from . import thorough as _th
             extra_thorough = _th.run(prop, ctx, say)
     except CheckError as e:
@@ -232,10 +240,13 @@ def run_property(prop, tier='quick', facts_dir=None, quiet=False, write=True):
                 nviol += 1
                 say('  %s' % v['detail'])
                 say('VIOLATION property=%s replay=%s' % (prop, v['replay']))
+    if partial_error:
+        say('CHECK-ERROR property=%s (after the verdicts above) %s' % (prop, partial_error.replace('\n', ' ')))
+        info = dict(info, check_error=partial_error)
     if write:
         write_evidence(prop, tier, 'other', coverage, ASSUMPTIONS, time.time() - t0, nviol, info)
     if not quiet:
         print('%s: %d obligations, %d hold, %d known finding(s), %d violation(s); %d functions, facts %s (%s), %.1fs'
               % (prop, len(ctx.obs), len(ctx.obs) - len(failed), len(hits), nviol, len(ctx.fns_analysed),
                  info.get('facts_cache', 'given'), info.get('tree_hash', '-'), time.time() - t0), flush=True)
-    return 1 if nviol else 0
+    return 1 if nviol else (2 if partial_error else 0)
